@@ -619,6 +619,50 @@ example : ((bucketInput false userLong false none "" "hashKey" {} "saltyA").toOp
 
 end Examples
 
+/-! ## Strengthened statements (theorem audit) -/
+
+/-- Truncation of an integer is that integer. -/
+theorem ratTrunc_intCast' (n : Int) : ratTrunc (n : Rat) = n := by
+  unfold ratTrunc
+  rw [Rat.num_intCast]
+  split
+  · exact Rat.floor_intCast n
+  · rw [← Rat.intCast_neg, Rat.floor_intCast]; omega
+
+/-- Audit #22: an integer-valued number in the int64 range (`Value.IsInt`) IS its numerator, and
+`IntValue()` returns exactly that integer — no truncation, no out-of-range sentinel.  For the Go code:
+the text hashed for a numeric bucket-by attribute is the decimal rendering of the number itself. -/
+theorem goInt_of_ratIsInt {q : Rat} (h : ratIsInt q = true) :
+    q = (q.num : Rat) ∧ goInt q = q.num ∧ int64Min ≤ q.num ∧ q.num ≤ int64Max := by
+  unfold ratIsInt at h
+  simp only [Bool.and_eq_true, beq_iff_eq, decide_eq_true_eq] at h
+  obtain ⟨⟨hd, h1⟩, h2⟩ := h
+  have hq : q = (q.num : Rat) := (Rat.den_eq_one_iff q |>.mp hd).symm
+  refine ⟨hq, ?_, h1, h2⟩
+  unfold goInt
+  simp only
+  rw [hq, ratTrunc_intCast', Rat.num_intCast]
+  rw [if_neg]
+  omega
+
+/-- `renderValue` of such a number is the decimal rendering of that integer. -/
+theorem renderValue_int {q : Rat} (h : ratIsInt q = true) :
+    renderValue (.num q) = some (decimal q.num) := by
+  simp [renderValue, h, (goInt_of_ratIsInt h).2.1]
+
+/-- Conversely every integer in the int64 range is rendered, as itself. -/
+theorem renderValue_intCast (n : Int) (h1 : int64Min ≤ n) (h2 : n ≤ int64Max) :
+    renderValue (.num (n : Rat)) = some (decimal n) := by
+  have h : ratIsInt (n : Rat) = true := by
+    unfold ratIsInt
+    simp [Rat.num_intCast, Rat.den_intCast, h1, h2]
+  rw [renderValue_int h, Rat.num_intCast]
+
+-- Non-vacuity: 33333 is rendered as the five digits "33333".
+example : renderValue (.num 33333) = some [51, 51, 51, 51, 51] := by
+  have := renderValue_intCast 33333 (by decide) (by decide)
+  simpa using this.trans (by decide)
+
 end LD.C06
 
 #print axioms LD.C06.input_layout
@@ -640,3 +684,5 @@ end LD.C06
 #print axioms LD.C06.error_iff
 #print axioms LD.C06.experiment_by_key
 #print axioms LD.C06.secondary_only_when
+#print axioms LD.C06.goInt_of_ratIsInt
+#print axioms LD.C06.renderValue_int
